@@ -32,6 +32,11 @@ def parse_struct_expect(r):
         f(sorted(set(r.bysecond))), f(canon(r.bysetpos)))
 
 
+def numbered_limit_p(r):
+    """class of the recorded finding D125: BYDAY with an ordinal where it limits the days BYMONTHDAY / BYYEARDAY select"""
+    return r.freq in ("MONTHLY", "YEARLY") and any(o for o, _ in r.byday) and bool(r.bymonthday or r.byyearday)
+
+
 def calendar(ds, r, uid):
     return ("BEGIN:VCALENDAR\nVERSION:2.0\nBEGIN:VEVENT\nUID:%s\nSUMMARY:x\nDTSTART%s:%s\nRRULE:%s\nEND:VEVENT\nEND:VCALENDAR\n" % (
         uid, ";VALUE=DATE" if ds[3] is None else "", rrgen.dtstart_text(ds) + ("" if ds[3] is None else "Z"), r.text()))
@@ -46,9 +51,10 @@ def run(ctx):
     cases = []
     for i in range(ncases):
         ds = rrgen.gen_dtstart(rng)
-        cases.append((ds, rrgen.gen_rule(rng, ds, big_times=(i % 10 == 9))))
+        cases.append((ds, rrgen.gen_rule(rng, ds, big_times=(i % 10 == 9), numbered_limit=0.25)))
     res, st, err = p_rr.run_cases(ctx, exe, cases, npop, timeout=120)
     fails, corr = [], []
+    known = collections.Counter()
     shapes = collections.Counter()
     freqs = collections.Counter()
     nocc = 0
@@ -64,6 +70,8 @@ def run(ctx):
         want = parse_struct_expect(x["rule"])
         if x["struct"] != want:
             fails.append((x, "snarf_rrule reads RRULE:%s as\n   %s\nexpected\n   %s" % (x["rule"].text(), x["struct"], want)))
+        elif x["verdict"] and numbered_limit_p(x["rule"]):
+            known["numbered-byday-limit"] += 1
         elif x["verdict"]:
             fails.append((x, "DTSTART:%s RRULE:%s : %s" % (rrgen.dtstart_text(x["ds"]), x["rule"].text(), x["verdict"])))
     # 2. correspondence: streams and filler chains through the model
@@ -105,7 +113,16 @@ def run(ctx):
         want = [hex16(t[0], t[1], t[2], 255, 0, 0, 0) if t[3] is None else hex16(t[0], t[1], t[2], t[3], t[4], t[5], 1023) for t in x["got"][:len(occ)]]
         if occ != want:
             fails.append((x, "the event read from a calendar starts %s, the rule stream built directly starts %s (RRULE:%s)" % (occ, want, x["rule"].text())))
+    kl = common.load_known("C01")
+    for k in kl:
+        if k.get("status") == "known" and known.get(k.get("class"), 0):
+            ctx.known(k["what"])
+    unlisted = [c for c in known if c not in {k.get("class") for k in kl if k.get("status") == "known"}]
+    if unlisted and not fails:
+        fails.append((res[0], "deviations of class %s seen, which is not a recorded finding" % unlisted))
     ctx.cov.update({
+        "known_class_hits": dict(known),
+        "rules_in_class_numbered_byday_limit": sum(1 for x in res if numbered_limit_p(x["rule"])),
         "evaluations": len(res) + len(fops) + len(pops),
         "distinct_nontrivial": len(set(x["op"] for x in res)) + len(set(fops)) + len(set(pops)),
         "traces_validated_against_impl": len(ops) + len(fops) - len(corr) - unmodelled,
